@@ -13,6 +13,9 @@
 //@ rwall R8 re⟦\bfs::create_dir_all\(⟧ => ⟦os_create_dir_all(⟧
 //@ rwall R8 re⟦\bFile::create\(⟧ => ⟦os_file_create(⟧
 //@ rwall R8 re⟦\bFile::options\(\)⟧ => ⟦OsOpenOptions::new()⟧
+//@ rwall R8 re⟦\bFile::open\(⟧ => ⟦os_file_open(⟧
+// R6: `Ok(Box::new(handle))` as `Box<dyn Write>` / `Box<dyn ReadSeek>`: the handle itself
+//@ rwall R6 re⟦Ok\(Box::new\((.*)\)\)⟧ => ⟦Ok(\1)⟧
 //@ rwall R8 re⟦\bstd::fs::read_to_string\(⟧ => ⟦os_read_to_string(⟧
 //@ rwall R8 re⟦\bfs::remove_dir_all\(⟧ => ⟦os_remove_dir_all(⟧
 //@ rwall R8 re⟦\bstd::env::set_current_dir\(⟧ => ⟦os_set_current_dir(⟧
@@ -83,9 +86,12 @@ impl OsOpenOptions {
     pub fn append(self, y: bool) -> (o: OsOpenOptions) ensures o == (OsOpenOptions { a: y, ..self }) { OsOpenOptions { a: y, ..self } }
     pub fn read(self, y: bool) -> (o: OsOpenOptions) ensures o == (OsOpenOptions { r: y, ..self }) { OsOpenOptions { r: y, ..self } }
     #[verifier::external_body]
-    pub fn open<T: PathArg>(self, p: T) -> (r: RvResult<OsFile>) ensures r is Ok ==> r->Ok_0.of() == p.pc() && ((self.w && self.c && self.t) ==> os_created_file(p.pc())) { unimplemented!() }
+    pub fn open<T: PathArg>(self, p: T) -> (r: RvResult<OsFile>) ensures r is Ok ==> r->Ok_0.of() == p.pc() && ((self.w && self.c && self.t) ==> os_created_file(p.pc())) && ((self.a && !self.t) ==> os_opened_append(p.pc())) { unimplemented!() }
 }
 #[verifier::external_body] pub fn os_file_create<T: PathArg>(p: T) -> (r: RvResult<OsFile>) ensures r is Ok ==> os_created_file(p.pc()) && r->Ok_0.of() == p.pc() { unimplemented!() }
+pub uninterp spec fn os_opened_read(p: Comps) -> bool;
+pub uninterp spec fn os_opened_append(p: Comps) -> bool;
+#[verifier::external_body] pub fn os_file_open<T: PathArg>(p: T) -> (r: RvResult<OsFile>) ensures r is Ok ==> r->Ok_0.of() == p.pc() && os_opened_read(p.pc()) { unimplemented!() }
 #[verifier::external_body] pub fn os_read_to_string<T: PathArg>(p: T) -> (r: RvResult<Str>) ensures r is Ok ==> r->Ok_0@ == os_file_text(p.pc()) { unimplemented!() }
 #[verifier::external_body] pub fn os_set_permissions<T: PathArg>(p: T, mode: u32) -> (r: RvResult<()>) ensures r is Ok ==> os_mode_set(p.pc(), mode) { unimplemented!() }
 #[verifier::external_body] pub fn os_remove_dir_all<T: PathArg>(p: T) -> (r: RvResult<()>) ensures r is Ok ==> os_removed_all(p.pc()) { unimplemented!() }
@@ -558,5 +564,24 @@ impl Stdfs {
                 &&& !os_stat_ok(a, true) ==> r->Err_0.kind == ErrKind::DoesNotExist
                 &&& (os_stat_ok(a, true) && !os_is_file(a, true)) ==> r->Err_0.kind == ErrKind::IsNotFile               //@ clause stdfs.read_all.error_kinds [C01]
             }),
+//@ body
+}
+
+impl Stdfs {
+// ---- handles: which file is opened, and how
+//@ item write file=src/sys/fs/stdfs/mod.rs block="impl Stdfs" fn=write props=C07,C06,C05,C12
+    pub fn write(path: &PathBuf) -> (r: RvResult<OsFile>)
+        ensures r is Ok ==> std_abs(path.comps()) is Some && r->Ok_0.of() == abs_of(path.comps())
+                            && os_created_file(abs_of(path.comps())),     //@ clause stdfs.write.handle_is_a_truncating_create_of_abs_path [C07,C06]
+//@ body
+//@ item append file=src/sys/fs/stdfs/mod.rs block="impl Stdfs" fn=append props=C07,C06,C05,C12
+//@ rw R1 * ⟦Stdfs::mkfile(&path)?;⟧ => ⟦Stdfs::mkfile(path)?;⟧
+    pub fn append(path: &PathBuf) -> (r: RvResult<OsFile>)
+        ensures r is Ok ==> std_abs(path.comps()) is Some && r->Ok_0.of() == abs_of(path.comps())
+                            && os_opened_append(abs_of(path.comps())),     //@ clause stdfs.append.handle_appends_to_abs_path_without_truncating [C07,C06]
+//@ body
+//@ item read file=src/sys/fs/stdfs/mod.rs block="impl Stdfs" fn=read props=C07,C06,C05,C12
+    pub fn read(path: &PathBuf) -> (r: RvResult<OsFile>)
+        ensures r is Ok ==> std_abs(path.comps()) is Some && r->Ok_0.of() == abs_of(path.comps()) && os_opened_read(abs_of(path.comps())),     //@ clause stdfs.read.opens_abs_path_for_reading [C07,C06]
 //@ body
 }
